@@ -1,4 +1,4 @@
 SPECIFICATION Spec
-CONSTANTS Fam = "hypercube" Dim = 2 CellCounts = {2} PartSets = {{"A","D"}} PtnCfgs = {2} Indents = {TRUE} Muts = TRUE
+CONSTANTS Fam = "hypercube" Dim = 2 CellCounts = {2} PartSets = {{"A","D"}} PtnCfgs = {2} Indents = {TRUE} ChartKinds = {0, 1, 2} Muts = TRUE
 INVARIANTS DocValid GrammarSane MutSane Emit
 CHECK_DEADLOCK FALSE
